@@ -184,6 +184,12 @@ def _adt_shape(a):
     return (a["kind"], tuple(sorted((v["name"] if len(a["variants"]) > 1 else "", tuple(sorted(f_["name"] for f_ in v["fields"]))) for v in a["variants"])))
 
 
+def _adt_type_shape(a):
+    """kind + per variant the sorted field *types* (lifetimes erased): what is left of a private type when its name and its field names
+    are both free"""
+    return [a["kind"], sorted([v["name"] if len(a["variants"]) > 1 else "", sorted(_erase_lt(f_.get("ty")) for f_ in v["fields"])] for v in a["variants"])]
+
+
 def canonical_adt_names(d):
     """The name of a type that cannot be named outside the crate is not behaviour. `adt_names.json` freezes the reference tree's
     crate-private types (module, name, kind, field names per variant). A private type of the analysed tree that the table does not
@@ -196,15 +202,34 @@ def canonical_adt_names(d):
         return {}
     have = {a["path"]: a for a in d["items"]["adts"] if a["path"].startswith("proguard::")}
     missing = [p_ for p_ in table if p_ not in have]
-    extra = [p_ for p_, a in have.items() if p_ not in table and not a.get("reachable_pub")]
     out = {}
+    strip = lambda q: q[len("proguard::"):]
+    # a type *moved* to another module (its definition in a new file, re-exported where it was): same name, same shape, the only one
+    moved = set()
+    for e, a in have.items():
+        if e in table:
+            continue
+        nm_ = e.rsplit("::", 1)[1]
+        cands = [m for m in missing if m.rsplit("::", 1)[1] == nm_ and table[m]["shape"] == json.loads(json.dumps(_adt_shape(a)))]
+        rivals = [x for x in have if x != e and x not in table and x.rsplit("::", 1)[1] == nm_]
+        if len(cands) == 1 and not rivals:
+            out[strip(e)] = strip(cands[0])
+            moved.add(e)
+            missing = [m for m in missing if m != cands[0]]
+    extra = [p_ for p_, a in have.items() if p_ not in table and not a.get("reachable_pub") and p_ not in moved]
     names_in_use = {p_.rsplit("::", 1)[1] for p_ in have}
     for e in extra:
         mod = e.rsplit("::", 1)[0]
-        cands = [m for m in missing if m.rsplit("::", 1)[0] == mod and table[m]["shape"] == json.loads(json.dumps(_adt_shape(have[e])))]
+        cands = [m for m in missing if m.rsplit("::", 1)[0] == mod and table[m].get("private", True)
+                 and table[m]["shape"] == json.loads(json.dumps(_adt_shape(have[e])))]
         rivals = [x for x in extra if x != e and x.rsplit("::", 1)[0] == mod and _adt_shape(have[x]) == _adt_shape(have[e])]
+        if not cands:
+            # renamed together with (some of) its private fields: the field types still tell which type it is
+            ts_ = json.loads(json.dumps(_adt_type_shape(have[e])))
+            cands = [m for m in missing if m.rsplit("::", 1)[0] == mod and table[m].get("private", True) and table[m].get("types") == ts_
+                     and any(v_[1] for v_ in ts_[1])]
+            rivals = [x for x in extra if x != e and x.rsplit("::", 1)[0] == mod and _adt_type_shape(have[x]) == _adt_type_shape(have[e])]
         if len(cands) == 1 and not rivals and cands[0].rsplit("::", 1)[1] not in names_in_use:
-            strip = lambda q: q[len("proguard::"):]
             out[strip(e)] = strip(cands[0])
     return out
 
@@ -386,6 +411,27 @@ class Facts:
                         txt = re.sub(r"(?<![\w])%s(?![\w])" % re.escape(new_q), old_q, txt)
                     d = json.loads(txt)
                     self.renamed_adts = ren
+                    # a struct's only variant carries the struct's name
+                    vren = {"proguard::" + old_q: (new_q.rsplit("::", 1)[-1], old_q.rsplit("::", 1)[-1]) for new_q, old_q in ren.items()
+                            if new_q.rsplit("::", 1)[-1] != old_q.rsplit("::", 1)[-1]}
+                    for a_ in d["items"]["adts"]:
+                        if a_["path"] in vren and len(a_["variants"]) == 1 and a_["variants"][0]["name"] == vren[a_["path"]][0]:
+                            a_["variants"][0]["name"] = vren[a_["path"]][1]
+
+                    def fixv(n_):
+                        if isinstance(n_, list):
+                            for x_ in n_:
+                                fixv(x_)
+                        elif isinstance(n_, dict):
+                            if n_.get("adt") in vren and n_.get("variant") == vren[n_["adt"]][0]:
+                                n_["variant"] = vren[n_["adt"]][1]
+                            for x_ in n_.values():
+                                if isinstance(x_, (dict, list)):
+                                    fixv(x_)
+                    if vren:
+                        for b_ in d["bodies"]:
+                            fixv(b_.get("params"))
+                            fixv(b_.get("body"))
             self.crates.append(c)
             for b in d["bodies"]:
                 self.bodies[b["path"]] = b
